@@ -11,6 +11,7 @@ from vx.units._cwrite import add_classwrite
 from vx.units import rtypes as RT
 
 PROPS = ['C02']
+RLIMIT = 60
 W = 'duke/src/simple_class_writer.rs'
 CC = 'duke/src/class_constants.rs'
 TA = 'duke/src/tree/type_annotation.rs'
